@@ -21,12 +21,12 @@ ASSUMPTIONS = ["numeric literals: |int| <= 2^53, floats printed by repr() withou
 TECHNIQUE = "serializer model + parser model correspondence; round trip compile(str(q)) = q, idempotence and grammar membership checked on the implementation with the Coq recognizer; Coq theorems on canonical quoting"
 LEVEL = "proof"
 LEVEL_TEXT = ("Proved (Props/C12.v): C12_roundtrip - for every registry and range and every well-typed, in-range query with any nesting of !, &&, ||, comparisons, function calls and embedded "
-              "filters whose literals are strings, booleans, null and integers surviving repr()/float() (decidable condition lx_query, Spec/Printable.v): the printed text lexes and parses to the same query "
+              "filters whose literals are strings, booleans, null, integers surviving repr()/float() and floats whose repr() is a FLOAT token text that float() reads back (decidable condition lx_query, Spec/Printable.v): the printed text lexes and parses to the same query "
               "(omitted slice steps made explicit), which prints identically again, compiles to itself and selects the same nodes on every value - end to end through the serializer, the whole lexer state "
-              "machine incl. the filter state with its stacks, and the Pratt parser; C12_roundtrip_compiled, C12_filter_free_roundtrip, C12_quotes_canonical, C12_parentheses. NOT covered by the theorem: "
-              "queries with FLOAT literals (7% of the generated ones; the check evaluates the hypothesis on every query, in Python and in the model) - round trip, idempotence and validity of the text are "
-              "decided on every generated query against the real code, and the text is compared with the model.")
-LEVEL_NOTE = "Partial for queries with float literals. Trusted: Coq kernel; serializer, lexer, parser models (correspondence); extraction and driver."
+              "machine incl. the filter state with its stacks, and the Pratt parser; C12_roundtrip_compiled, C12_filter_free_roundtrip, C12_quotes_canonical, C12_parentheses. FLOAT literals are covered through the decidable per-literal condition "
+              "(the shape of repr(float) and float(repr(x)) = x are not proved in general; floats printed as 1e+16 or inf fail it): the check evaluates the hypothesis on every generated query, in Python and in the model "
+              "(it holds on all of them) - round trip, idempotence and validity of the text are decided on every generated query against the real code, and the text is compared with the model.")
+LEVEL_NOTE = "Float literals enter through a decidable per-literal side condition. Trusted: Coq kernel; serializer, lexer, parser models (correspondence); extraction and driver."
 
 
 def cases(ctx, budget):
@@ -65,12 +65,16 @@ def cases(ctx, budget):
         nontriv = "filter" in repr(q) or any(nm not in gen.SIMPLE_NAMES for nm in names if repr(nm) in repr(q))
         if out[0] == 0:
             # the decidable hypothesis of theorem C12_roundtrip (Spec/Printable.v, lx_query), evaluated independently here on the compiled query and by the model:
-            # literals are strings / booleans / null / integers that survive repr() and float(); names are Unicode scalar values; function names are lexable
+            # literals are strings / booleans / null / integers that survive repr() and float() / floats printed in FLOAT token shape; names are Unicode scalar values; function names are lexable
             hyp = lx_query(gen.ast_of_query(c1))
             yield Case({"text": text, "hypothesis_of_C12_roundtrip": hyp}, [22] + renc + wire.enc_str(text), [0, 1 if hyp else 0], None, None, False,
-                       "theorem-hypothesis-holds" if hyp else "theorem-hypothesis-fails (float literal ...): correspondence only")
+                       "theorem-hypothesis-holds" if hyp else "theorem-hypothesis-fails (e.g. a float printed as 1e+16): correspondence only")
         yield Case({"text": text, "str": t1}, [5] + renc + wire.enc_str(text), out if out[0] == 0 else out, [104, fm] + wire.enc_str(t1), None, nontriv,
                    "filter" if "filter" in repr(q) else "plain", True, chk)
+
+
+import re, math
+FLOAT_SHAPE = re.compile(r"-?[0-9]+\.[0-9]+(?:[eE][+-]?[0-9]+)?|-?[0-9]+[eE]-[0-9]+")
 
 
 def lx_lit(v):
@@ -79,6 +83,10 @@ def lx_lit(v):
     if isinstance(v, int):
         try: return int(float(repr(v))) == v
         except OverflowError: return False
+    if isinstance(v, float):
+        # the text repr() gives has the shape of a FLOAT token (so no inf / nan / 1e+16), no leading zero, and float() reads it back as the same float
+        t = repr(v)
+        return bool(FLOAT_SHAPE.fullmatch(t)) and float(t) == v and (math.copysign(1.0, float(t)) == math.copysign(1.0, v))
     return False
 
 
